@@ -51,6 +51,36 @@ def norm_gap(line: str) -> str:
     return f"{line[0]} " + (prio + " " if prio else "") + rest.lstrip(" ")
 
 
+def zid_insertion_problem(a: str, b: str) -> tuple[Optional[str], dict]:
+    """Is line `b` line `a` with a ZID inserted after the kind/priority prefix
+    (taking the place of a leading YYYY-MM-DD)?  -> (violated clause or None, info)"""
+    info: dict[str, Any] = {}
+    m = _ZID_TOKEN.search(b)
+    if not m:
+        return "changed-line-has-no-zid", info
+    info["zid"] = m.group(1)
+    kind, prio = a[0], _real_priority(a)
+    body = a[2:]
+    if prio:
+        body = body[3:]
+        info["priority"] = prio
+    body = body.lstrip(" ")
+    lm = re.match(r"^\d{4}-\d{2}-\d{2}( |$)", body)
+    if lm:
+        body = body[lm.end() :]
+        info["long_date"] = True
+    want_head = f"{kind} " + (prio + " " if prio else "")
+    # spaces between prefix, ZID and the first body word may shrink or stay
+    # (the statement fixes where the ZID goes, not the spacing around it)
+    got_head = re.sub(r" +", " ", b[: m.start(1)])
+    got_tail = b[m.end(1) :].lstrip(" ").rstrip(" ")
+    if got_head != want_head:
+        return "zid-not-after-prefix", info
+    if got_tail != body.lstrip(" ").rstrip(" "):
+        return "zid-insertion-altered-line", info
+    return None, info
+
+
 def gen_case(rng: random.Random, tier: str) -> dict:
     world = gen.gen_world(rng, pages=(1, 4), max_items=7)
     steps: list[dict] = [{"op": "create"}]
@@ -109,30 +139,12 @@ def explain_diff(orig: dict, new: dict, orig_canon: dict, rec: hist.Rec) -> Opti
             shape = "+".join(sorted(oracles.first_line_shape(a)))
             if key not in lacking:
                 return hist.viol("file-changed-elsewhere", shape, page=rel, line=i + 1, before=a, after=b)
-            m = _ZID_TOKEN.search(b)
-            if not m:
-                return hist.viol("changed-line-has-no-zid", shape, page=rel, line=i + 1, before=a, after=b)
-            zid = m.group(1)
-            kind, prio = a[0], _real_priority(a)
-            body = a[2:]
-            if prio:
-                body = body[3:]
-            body = body.lstrip(" ")
-            lm = re.match(r"^\d{4}-\d{2}-\d{2}( |$)", body)
-            if lm:
-                body = body[lm.end() :]
+            clause, info = zid_insertion_problem(a, b)
+            if info.get("long_date"):
                 rec.probe("long-date-replaced")
-            want_head = f"{kind} " + (prio + " " if prio else "")
-            # spaces between prefix, ZID and the first body word may shrink or stay
-            # (the statement fixes where the ZID goes, not the spacing around it)
-            got_head = re.sub(r" +", " ", b[: m.start(1)])
-            got_tail = b[m.end(1) :].lstrip(" ").rstrip(" ")
-            if got_head != want_head:
-                return hist.viol("zid-not-after-prefix", shape, page=rel, line=i + 1, before=a, after=b)
-            if got_tail != body.lstrip(" ").rstrip(" "):
-                return hist.viol("zid-insertion-altered-line", shape, page=rel, line=i + 1, before=a, after=b, zid=zid)
-            head = got_head
-            if re.fullmatch(r"[ox~<>] +P\d +", head):
+            if clause:
+                return hist.viol(clause, shape, page=rel, line=i + 1, before=a, after=b)
+            if info.get("priority"):
                 rec.probe("priority-and-new-zid")
             rec.probe("zid-written-back")
     return None
